@@ -21,7 +21,7 @@ recipient for LMTP) / the stub's own log file (ran for that recipient and exited
 (answered that request 2xx).
 
 Oracle on (outcome o of Relay.attempt, L):
- ENDS      the attempt greenlet finishes before a hub-ordered watchdog of K x (largest configured timeout).
+ ENDS      the attempt greenlet finishes before a hub-ordered watchdog of 12 x (largest configured timeout).
  TYPE      o is a returned result or a raised Permanent/TransientRelayError; never another exception type,
            never a RelayError object returned at top level, never a mapping value that is not
            None / Reply / Permanent/TransientRelayError, never a mapping that omits a recipient.
@@ -66,9 +66,10 @@ LEVEL_TEXT = ('Single-fault enumeration at the downstream boundary of the real r
               '(stage x outcome x PIPELINING x 1-3 recipients x connection reuse, plus seeded double faults), '
               'pipe relays (4 classes x exit status x stdout/stderr shape x timeout), HTTP relay (status x '
               'X-Smtp-Reply x connection faults x reuse), MX relay (stub resolver scripts x attempt number x '
-              'downstream fault). thorough enumerates the whole table, quick a stratified sample containing every '
-              '(kind, stage, outcome) at least once. Held = the oracle was silent on the scripts enumerated; other '
-              'downstream behaviours (trickled replies, very long replies, TLS alerts mid-session) are not covered.')
+              'downstream fault). Both tiers enumerate the whole designed single-fault table (~3 600 cases); quick '
+              'adds 1 500 seeded double/triple faults, thorough 60 000 and the reuse table over every outcome. Held = the '
+              'oracle was silent on the scripts enumerated; other downstream behaviours (trickled replies, very '
+              'long replies, TLS alerts mid-session, a resolver that never answers) are not covered.')
 LEVEL_NOTE = ('Trusted: vf.downstream.Downstream (own parser and acceptance log), the /bin/sh stub and its log file, '
               'the ~60-line scripted HTTP server, StubChannel (~25 lines), the expectation table computed by the '
               'generator from the script alone (function expect_smtp and friends), result normalisation (~40 lines).')
@@ -78,13 +79,13 @@ RULE = ('case = one relay attempt (two on one relay object for reuse cases, up t
         'downstream script. smtp: designed single-fault table (stage x outcome x pipelining x nrcpt x SMTP/LMTP), '
         'RSET faults combined with a failing stage, HELO faults combined with EHLO-500, reuse table (fault in the '
         'first message, clean second message, immediate or after the client went idle), idle-connection pushes, '
-        'seeded double faults; pipe / http / mx: full designed tables. quick keeps every (kind, stage, outcome) '
-        'once per protocol with seeded choice of the other dimensions plus a seeded extra sample. '
+        'seeded double faults (SAFETY/TYPE/ENDS only); pipe / http / mx: full designed tables. '
         'non-trivial = the script deviates from the all-2xx path; distinct by (kind, stage, outcome, pipelining, '
         'nrcpt, lmtp/class, reuse)')
 ASSUMPTIONS = ['the Downstream / stub / HTTP-server logs are the truth about what the next hop accepted',
-               'a relay timeout of 0.1 s (stall cases) / 0.3 s (others) and a watchdog of 8x that are timers of one '
-               'gevent hub: the relay\'s own timeouts always fire first, whatever the load',
+               'a relay timeout of 0.1 s (stall cases) / 0.3-1.0 s (others) and a watchdog of 8x + 4x that are timers '
+               'of one gevent hub: the relay\'s own timeouts fire first; the longest legitimate chain of '
+               'consecutive relay timeouts in a script is 5',
                'CLASS and COMPLETE are demanded only where the script has one deviating stage; HTTP without a '
                'parsable X-Smtp-Reply, pipe exits without a 5.x.x/4.x.x text (PipeRelay) or other than EX_TEMPFAIL '
                '(maildrop/dovecot) are only required to be failures of a proper type',
@@ -100,9 +101,11 @@ BUDGET = {'quick': 60, 'thorough': 800}
 EXHAUSTIVE = {'quick': False, 'thorough': False}
 
 T_STALL = 0.1       # relay timeouts in cases where the script makes the relay wait
-T_FAST = 0.3        # relay timeouts elsewhere (nothing in the script makes the relay wait)
-K = 8               # watchdog = K x timeout
+T_FAST = 0.3        # relay timeouts elsewhere (nothing in the script makes the relay wait), batch screen
+T_ALONE = 1.0       # ... the same in the isolated (authoritative / replay) execution
+K = 8               # watchdog = K x timeout, plus a grace period of K/2 x timeout (see run_attempt)
 BATCH = {'smtp': 40, 'mx': 20, 'http': 20, 'pipe': 8}
+NMULTI = {'quick': 1500, 'thorough': 60000}     # seeded double / triple fault scripts
 CONFIRM_EACH = 4    # isolated confirmations per mechanism and shard before batch sightings are taken as seen
 
 # ------------------------------------------------------------------------------------------------
@@ -193,10 +196,15 @@ def run_attempt(relay, env, attempts, timeout):
             out['exc'] = e
     g = gevent.spawn(go)
     g.join(timeout=K * timeout)
+    if not g.dead:
+        # If this process was not scheduled for a while, the relay's own timer and the watchdog may have
+        # expired in the same loop iteration (libev does not promise their callback order): give every
+        # already-expired timer the chance to be delivered before concluding anything.
+        g.join(timeout=K * timeout / 2.0)
     rcpts = list(env.recipients)
     if not g.dead:
         g.kill(block=False)
-        return {'end': 'hang', 'watchdog_s': K * timeout, 'per': {}}
+        return {'end': 'hang', 'watchdog_s': 1.5 * K * timeout, 'per': {}}
     if 'exc' in out:
         e = out['exc']
         n = _norm_value(e)
@@ -244,7 +252,9 @@ OUTCOMES = collections.OrderedDict([
     ('range699', ('malformed', ['raw', b'699 weird\r\n'])),
     ('range099', ('malformed', ['raw', b'099 weird\r\n'])),
     ('partial-close', ('malformed', ['raw', b'{c}-first line\r\n', 'close'])),
-    ('partial-silence', ('malformed', ['raw', b'{c} no line end'])),       # the relay has to time out
+    # two digits of a code, then silence: the relay has to time out; whatever the server writes next cannot
+    # complete this into a well-formed reply (so the downstream log and the wire never disagree)
+    ('partial-silence', ('malformed', ['raw', b'{c2}'])),
     ('1xx', ('wrongclass', ['reply', '150'])),
     ('3xx', ('wrongclass', ['reply', '354'])),
     ('close', ('close', ['close'])),
@@ -265,7 +275,8 @@ def action_for(stage, outcome):
         return ['reply', code]
     a = list(OUTCOMES[outcome][1])
     if a[0] == 'raw':
-        a[1] = a[1].replace(b'{c}', NORMAL_CODE.get(stage_family(stage), b'250'))
+        code = NORMAL_CODE.get(stage_family(stage), b'250')
+        a[1] = a[1].replace(b'{c}', code).replace(b'{c2}', code[:2])
     return a
 
 
@@ -423,16 +434,17 @@ def gen_smtp_all(rnd, ndouble, full=False):
                                            [['D', 'D'], ['D', 'D']], reuse=mode, idle_stage=True,
                                            oclass={'421': '4xx', '554': '5xx', 'close': 'close',
                                                    'garbage': 'malformed'}[o]))
-    # --- seeded double faults: SAFETY / TYPE / ENDS only
+    # --- seeded double / triple faults: SAFETY / TYPE / ENDS only
     for _ in range(ndouble):
         lmtp, pipelining, nrcpt = rnd.random() < 0.5, rnd.random() < 0.5, rnd.choice([1, 2, 2, 3])
         table = [(s, o) for s, o in smtp_stage_outcomes(lmtp, nrcpt) if s != 'connect' and o != '2xx']
         table += [('rset', o) for o in OUTCOMES if o not in ('1xx', '3xx')]
-        (s1, o1), (s2, o2) = rnd.sample(table, 2)
-        if s1 == s2:
+        picks = rnd.sample(table, 3 if rnd.random() < 0.25 else 2)
+        if len(set(s for s, _ in picks)) < len(picks):
             continue
-        c = smtp_case(lmtp, pipelining, nrcpt, s1 + '+' + s2, o1 + '+' + o2, [fault(s1, o1), fault(s2, o2)],
-                      ['?'] * nrcpt, oclass=OUTCOMES[o1][0] + '+' + OUTCOMES[o2][0])
+        c = smtp_case(lmtp, pipelining, nrcpt, '+'.join(s for s, _ in picks), '+'.join(o for _, o in picks),
+                      [fault(s, o) for s, o in picks], ['?'] * nrcpt,
+                      oclass='+'.join(OUTCOMES[o][0] for _, o in picks))
         c['single'] = False
         c['slow'] = True
         if rnd.random() < 0.3:
@@ -490,8 +502,8 @@ def _wait_idle(relay, limit=1.0, gone=False):
     return False
 
 
-def exec_smtp(case):
-    T = T_STALL if case.get('slow') else T_FAST
+def exec_smtp(case, alone=False):
+    T = T_STALL if case.get('slow') else T_ALONE if alone else T_FAST
     uid = _uid()
     fired = set()
     tlsopt = case.get('tls')
@@ -644,7 +656,7 @@ def _tok(beh, n):
     return 'B_%d_%d_%d_%s_%d' % (beh[0], beh[1], beh[2], beh[3] or 0, n)
 
 
-def exec_pipe(case):
+def exec_pipe(case, alone=False):
     uid = _uid()
     stub = _stub_path()
     log = os.path.join(_scratch(), 'c11log-%d-%d.log' % (os.getpid(), uid))
@@ -842,7 +854,7 @@ def gen_http_all():
     return cases
 
 
-def exec_http(case):
+def exec_http(case, alone=False):
     port, refused_port = _http_server()
     uid = _uid()
     path = '/c11/%d' % uid
@@ -983,10 +995,10 @@ def gen_mx_all():
     return cases
 
 
-def exec_mx(case):
+def exec_mx(case, alone=False):
     ch = _stub_channel()
     uid = _uid()
-    T = T_FAST
+    T = T_ALONE if alone else T_FAST
     dom = 'd%d.mx.test' % uid
     hosts = {}
     seen_addr = []
@@ -1081,7 +1093,15 @@ def labels(case):
 def classify(clause, case, m, extra='', crashes=()):
     k, fam, outcome, pl = labels(case)
     res = m['result']
-    oc = case.get('oclass', outcome) if case['kind'] == 'smtp' else outcome     # coarse outcome for unknown causes
+    # coarse outcome label for causes the classifier does not know (keeps their number of names small)
+    if case['kind'] == 'smtp':
+        oc = case.get('oclass', outcome)
+    elif case['kind'] == 'pipe':
+        oc = case['stage']
+    elif case['kind'] == 'http':
+        oc = outcome if case['stage'] == 'connection' else re.sub(r'^(hdr-(?:\d\d\d|none|unparsable)).*$', r'\1', outcome)
+    else:
+        oc = re.sub(r'[-/].*$', '', outcome)
     if clause == 'type':
         exc = res.get('type', '?')
         if res['end'] == 'raised-other':
@@ -1123,11 +1143,12 @@ def classify(clause, case, m, extra='', crashes=()):
         return 'unclassified/attempt-does-not-end/%s/%s/%s/%s' % (k, fam, oc, pl)
     if clause == 'safety':
         if k in ('smtp', 'lmtp'):
-            wc = sorted(set(stage_family(f['stage']) for f in case['faults']
-                            if f['action'][0] == 'reply' and f['action'][1][0] in '13'
-                            and stage_family(f['stage']) in ('rcpt', 'eod')))
-            if wc:
-                return 'unsafe-delivered/smtp+lmtp/%s-reply-1xx-or-3xx-taken-as-accepted' % '+'.join(wc)
+            wc = set(f['stage'] for f in case['faults'] if f['action'][0] == 'reply' and f['action'][1][0] in '13'
+                     and stage_family(f['stage']) in ('rcpt', 'eod'))
+            if 'rcpt' + extra in wc:         # this recipient's own RCPT was answered 1xx/3xx
+                return 'unsafe-delivered/smtp+lmtp/rcpt-reply-1xx-or-3xx-taken-as-accepted'
+            if any(st.startswith('eod') for st in wc):
+                return 'unsafe-delivered/smtp+lmtp/eod-reply-1xx-or-3xx-taken-as-accepted'
         return 'unclassified/unsafe-delivered/%s/%s/%s' % (k, fam, oc)
     if clause == 'class':
         if k == 'http' and outcome.endswith('-command') and "no attribute 'decode'" in str(res['per']):
@@ -1138,7 +1159,7 @@ def classify(clause, case, m, extra='', crashes=()):
             return 'accepted-but-reported-failed/http/X-Smtp-Reply-out-of-range-code'
         return 'unclassified/accepted-but-reported-failed/%s/%s/%s' % (k, fam, oc)
     if clause == 'mx-host':
-        return 'unclassified/mx-host-choice/%s/%s' % (fam, outcome)
+        return 'unclassified/mx-host-choice/%s' % fam
     return 'unclassified/%s/%s/%s/%s' % (clause, k, fam, outcome)
 
 
@@ -1173,7 +1194,7 @@ def judge(case, obs, R=None):
         if res['end'] == 'hang':
             V.append((classify('ends', case, m, crashes=obs['log'].get('client_greenlets_died_with', ())),
                       'attempt() still blocked after %.1fs = %dx the configured timeout [%s]'
-                      % (res['watchdog_s'], K, tag), wit))
+                      % (res['watchdog_s'], round(1.5 * K), tag), wit))
             continue
         if res['end'] in ('raised-other', 'returned-error-object', 'returned-bad-type'):
             what = {'raised-other': 'attempt() raised %s, not a RelayError: %s',
@@ -1202,7 +1223,7 @@ def judge(case, obs, R=None):
             cnt('comparisons/reported-%s/downstream-%s' % ('delivered' if v == 'D' else 'failed',
                                                          'accepted' if r in acc else 'not-accepted'))
             if v == 'D' and r not in acc:
-                V.append((classify('safety', case, m),
+                V.append((classify('safety', case, m, extra=str(m['rcpts'].index(r))),
                           '%s reported delivered (%s) but the downstream never positively accepted it [%s]'
                           % (r, per[r].get('repr', per[r]['type']), tag), wit))
                 continue
@@ -1273,30 +1294,9 @@ def is_nontrivial(case):
 
 def all_cases(tier, seed):
     rnd = random.Random('c11-%s-%d' % (tier, seed))
-    smtp = gen_smtp_all(rnd, 3000 if tier == 'thorough' else 150, full=(tier == 'thorough'))
+    smtp = gen_smtp_all(rnd, NMULTI[tier], full=(tier == 'thorough'))
     others = gen_pipe_all() + gen_http_all() + gen_mx_all()
-    if tier == 'thorough' or QUICK_EXTRA is None:
-        return smtp + others
-    # quick: every (kind/proto, stage family incl. reuse flag, outcome) once with a seeded choice among the
-    # configurations that have it, plus a seeded extra sample; pipe / http / mx tables in full
-    groups = collections.OrderedDict()
-    for c in smtp:
-        if not c['single']:
-            continue
-        key = (c['lmtp'], '+'.join(stage_family(s) for s in c['stage'].split('+')), c['outcome'],
-               bool(c.get('reuse')), (c.get('tls') or {}).get('required'))
-        groups.setdefault(key, []).append(c)
-    chosen, rest = [], []
-    for key, lst in groups.items():
-        rnd.shuffle(lst)
-        chosen.append(lst[0])
-        rest.extend(lst[1:])
-    rnd.shuffle(rest)
-    doubles = [c for c in smtp if not c['single']]
-    return chosen + rest[:QUICK_EXTRA] + doubles + others
-
-
-QUICK_EXTRA = None      # None: quick runs the whole single-fault table too (measured ~40 s with 12 shards)
+    return smtp + others
 
 
 def gen_cases(tier, seed, shard, nshards):
@@ -1345,7 +1345,7 @@ def _account(case, obs, R):
 def run_one(case, R, obs=None):
     """Execute alone (or take a screened observation), judge, report."""
     if obs is None:
-        obs = EXEC[case['kind']](case)
+        obs = EXEC[case['kind']](case, alone=True)
     _account(case, obs, R)
     V = judge(case, obs, R)
     _report(case, obs, V, R)
@@ -1361,6 +1361,8 @@ def run_case(case, R):
                                     m['accepted']) for m in obs['msgs']]})
         return
     batch = case['batch']
+    # the sweep driver counted the batch as one case; account every member, and make each member the
+    # recorder's current case while it is judged so that witnesses / replay files hold that member alone
     R.cases += len(batch) - 1
     crashes0 = dict(_G['crashes'])
     slots = [None] * len(batch)
@@ -1409,7 +1411,9 @@ def run_case(case, R):
             conf[mech] += 1
         lost = set(mech for mech, _, _ in V1) - set(mech for mech, _, _ in V2)
         for mech in sorted(lost):
-            R.inconclusive('seen-in-batch-not-reproduced-alone: ' + mech)
+            part = mech.split('/')
+            R.inconclusive('seen-in-batch-not-reproduced-alone/' + (part[1] if part[0] == 'unclassified' else part[0]))
+            R.count('not-reproduced-alone/' + mech)
     for name, n in _G['crashes'].items():
         d = n - crashes0.get(name, 0)
         if d:
